@@ -180,24 +180,16 @@ class DQN(RLAlgorithm):
         self.register_mutation_hook(self.init_hook)
 
     def init_hook(self) -> None:
-        """Resets module parameters for the detached and target networks."""
-        param_vals: TensorDict = from_module(self.actor).detach()
-
-        # NOTE: This removes the target params from the computation graph which
-        # reduces memory overhead and speeds up training, however these won't
-        # appear in the modules parameters
-        target_params: TensorDict = param_vals.clone().lock_()
-
-        # This hook is prompted after performing architecture mutations on policy / evaluation
-        # networks, which will fail since the target network is a shared network that won't be
-        # reintiialized until the end. We can bypass the error safely for this reason.
+        """Resets the parameters of the target network to those of the actor."""
+        # NOTE: The target keeps regular parameters (as in the other value-based algorithms) so that
+        # soft_update() can blend into them and they are part of the state dict saved in checkpoints.
+        # This hook is also prompted after performing architecture mutations on the actor, before the
+        # target network (a shared network) has been reinitialized, in which case loading fails. We can
+        # bypass the error safely since the hook runs again once the target has been re-created.
         try:
-            target_params.to_module(self.actor_target)
-        except KeyError:
+            self.actor_target.load_state_dict(self.actor.state_dict())
+        except RuntimeError:
             pass
-        finally:
-            self.param_vals = param_vals
-            self.target_params = target_params
 
     def get_action(
         self,
